@@ -201,7 +201,11 @@ def arc_to_cubic(
     if not isinstance(end_point, Point):
         end_point = Point(*end_point)
 
-    arc = EllipticalArc(start_point, rx, ry, rotation, large, sweep, end_point)
+    # negative radii are used as their absolute value
+    # https://www.w3.org/TR/SVG/implnote.html#ArcCorrectionOutOfRangeRadii
+    arc = EllipticalArc(
+        start_point, fabs(rx), fabs(ry), rotation, large, sweep, end_point
+    )
     if arc.is_zero_length():
         return
     elif arc.is_straight_line():
